@@ -87,6 +87,16 @@ class C01(Spec):
                     h.append("copy %d %d" % (s, nxt))
                     live.append(nxt)
                     nxt += 1
+                elif r < 0.985 and len(live) > 1:
+                    # assignment into a live sketch of another configuration (the harness assigns when the target exists), then reset
+                    # and reuse: everything the target does afterwards must follow the SOURCE's configuration (p, lg_k, seed, resize factor)
+                    d = rng.choice([x for x in live if x != s])
+                    h.append("copy %d %d" % (s, d))
+                    if rng.random() < 0.7:
+                        h.append("reset %d" % d)
+                    for _ in range(rng.choice([3, 30, 120])):
+                        ty, lit = gen.rand_input(rng, universe, types)
+                        h.append("upd %d %s %s" % (d, ty, lit))
                 elif compacts:
                     c = rng.choice(compacts)
                     h.append("compact %d %d %d" % (c, 100 + len(compacts), rng.randrange(2)))
